@@ -818,6 +818,18 @@ func streamReader(c *corrOut, g *inputGen, r *rng, n int, thorough bool) {
 		}
 		g.checkExpect(c, "C10", "several pastes in one run, each delivered in pieces after its start marker", chunks, expectedOf(evs, kr))
 	}
+	// C10 (round 16, C10-p): a DOUBLY WRAPPED paste - start marker, start marker, text, end marker, end marker
+	// (a multiplexer wrapping what the terminal already wrapped). The paste is what lies between the first
+	// start marker and the first end marker; the second end marker closes nothing and is an unknown CSI
+	// sequence like any other; whatever follows it is decoded as usual.
+	for _, tail := range []string{"x", "xyz"} {
+		p := g.evPaste([]byte("\x1b[200~text"))
+		evs := []event{g.evRunes([]rune{'a'}), p, evUnknownCSI([]byte("201"), nil, '~'), g.evRunes([]rune(tail))}
+		all := concatEvents(evs)
+		g.checkExpect(c, "C10", "doubly wrapped paste: a stray end marker directly after the paste, then text", [][]byte{all}, expectedOf(evs, kr))
+		g.checkExpect(c, "C10", "doubly wrapped paste: a stray end marker directly after the paste, then text", [][]byte{all[:1+6], all[1+6:]}, expectedOf(evs, kr))
+		g.checkExpect(c, "C10", "doubly wrapped paste: a stray end marker directly after the paste, then text", [][]byte{all[:1+6+6+4+6], all[1+6+6+4+6:]}, expectedOf(evs, kr))
+	}
 	// C10 / C09: a SLOW LINK - the pieces of one paste (and of one mouse report, one key sequence) arrive
 	// with 260 ms between reads: however long the rest of an event takes to arrive, what was held
 	// back is kept, and the result is the same as with no pause at all
